@@ -6,6 +6,7 @@ import (
 	"go/ast"
 	"go/printer"
 	"go/token"
+	"regexp"
 	"strconv"
 )
 
@@ -24,6 +25,9 @@ var stdConsts = map[string]int64{
 	"time.Second":      1000000000,
 	"time.Minute":      60000000000,
 	"time.Hour":        3600000000000,
+	"math.MaxInt64":    9223372036854775807,
+	"math.MaxInt":      9223372036854775807,
+	"math.MinInt64":    -9223372036854775808,
 }
 
 // conversions that do not change the integer value (modulo range, which the model handles with wrap64)
@@ -35,6 +39,8 @@ type env struct {
 	fset *token.FileSet
 	vars map[string]string // printed Go expression -> Coq term
 	wrap bool              // wrap +,-,* to int64
+	wide []string          // Coq variables that range over all of int64 (attribute values, draws): with wrap off, only
+	// arithmetic mentioning one of them is wrapped; arithmetic on slice offsets alone (0 <= offset <= len) cannot overflow
 }
 
 // toCoq translates an integer/boolean Go expression into a Gallina term over Z / bool.
@@ -122,6 +128,11 @@ func (e *env) toCoq(x ast.Expr) (string, error) {
 func (e *env) w(s string) string {
 	if e.wrap {
 		return "(wrap64 " + s + ")"
+	}
+	for _, v := range e.wide {
+		if regexp.MustCompile(`(^|[^A-Za-z0-9_])` + regexp.QuoteMeta(v) + `($|[^A-Za-z0-9_])`).MatchString(s) {
+			return "(wrap64 " + s + ")"
+		}
 	}
 	return s
 }
